@@ -78,6 +78,7 @@ theorem c06_effect_is_payload (vault vault' : List Pem) (now now' : Int) (t t' :
   rw [hp, h2] at h1
   exact (Option.some.inj h1).symm
 
+/-- what the handler receives from an accepted ticket is the decoded payload segment of that very ticket -/
 theorem c06_accepted_is_signed_payload {vault : List Pem} {now : Int} {t : Presented α} {keys : List Pem} {a : α}
     (h : verifyKeys vault now t keys = some a) : t.payload = some a := verifyKeys_payload h
 
@@ -230,6 +231,7 @@ theorem c06_accept_strict_partial (vault : List Pem) (now : Int) (t : Presented 
   unfold verifyKeys Presented.wellFormed Presented.unexpired Presented.verifies
   simp [hn, ht]
 
+/-- an accepted string has at least three segments -/
 theorem c06_accepted_has_three_segments (vault : List Pem) (now : Int) (t : Presented α) (keys : List Pem)
     (h : (verifyKeys vault now t keys).isSome = true) : 3 ≤ t.parts := by
   obtain ⟨hw, _⟩ := (verifyKeys_isSome vault now t keys).1 h
@@ -249,6 +251,20 @@ theorem c06_core_kyc_binds_actor (tk : Sge.Core.Tk) (actor : Nat) (h : tk.kycOk 
     (hi : tk.kycIgnore = false) : tk.kycApproved = true ∧ tk.kycId = actor := by
   unfold Sge.Core.Tk.kycOk at h
   simpa [hi] using h
+
+/-- the keys a mode checks against -/
+def modeKeys (vault : List Pem) : Mode → List Pem
+  | .leader => leaderKeys vault
+  | .index i => indexKeys vault i
+  | .any => vault
+
+/-- C06.a, uniformly over the three modes (the form the differential suite exercises) -/
+theorem c06_verifyMode_iff (vault : List Pem) (now : Int) (m : Mode) (t : Presented Unit) :
+    verifyMode vault now m t = true ↔ ticketOK t (modeKeys vault m) now ∧ Readable t := by
+  cases m with
+  | leader => exact c06_accept_iff_ticketOK_leader vault now t
+  | index i => exact c06_accept_iff_ticketOK_index vault i now t
+  | any => exact c06_accept_iff_ticketOK_any vault now t
 
 /-- message level (what the suite compares): a message whose ticket is not OK fails -/
 theorem c06_msgVerdict_requires (vault : List Pem) (now : Int) (tks : List (Mode × Presented Unit))
@@ -287,39 +303,17 @@ theorem c06_marketResolve_bad_ticket (s : State) (tk : Tk) (u ts status : Nat) (
   unfold marketResolve marketResolveO commit
   simp [chk, h]
 
-theorem houseDepositO_bad_ticket (s : State) (c : Nat) (tk : Tk) (m : Nat) (a : Int) (pd : Nat)
-    (h : tk.ok = false) : houseDepositO s c tk m a pd = none := by
-  unfold houseDepositO
-  simp only [chk, h, bind, pure]
-  split <;> (try rfl)
-  split <;> rfl
-
 /-- house Deposit -/
 theorem c06_houseDeposit_bad_ticket (s : State) (c : Nat) (tk : Tk) (m : Nat) (a : Int) (pd : Nat)
     (h : tk.ok = false) : houseDeposit s c tk m a pd = (s, .err, 0) := by
   unfold houseDeposit
   rw [houseDepositO_bad_ticket s c tk m a pd h]
 
-theorem houseWithdrawO_bad_ticket (s : State) (c : Nat) (tk : Tk) (m i md : Nat) (a : Int) (pd : Nat)
-    (h : tk.ok = false) : houseWithdrawO s c tk m i md a pd = none := by
-  unfold houseWithdrawO
-  simp only [chk, h, bind, pure]
-  split <;> (try rfl)
-  split <;> (try rfl)
-  split <;> rfl
-
 /-- house Withdraw -/
 theorem c06_houseWithdraw_bad_ticket (s : State) (c : Nat) (tk : Tk) (m i md : Nat) (a : Int) (pd : Nat)
     (h : tk.ok = false) : houseWithdraw s c tk m i md a pd = (s, .err) := by
   unfold houseWithdraw commit
   rw [houseWithdrawO_bad_ticket s c tk m i md a pd h]
-
-theorem wagerO_bad_ticket (s : State) (c : Nat) (tk : Tk) (u : Nat) (a : Int) (pl : WagerPayload)
-    (h : tk.ok = false) : wagerO s c tk u a pl = none := by
-  unfold wagerO
-  simp only [chk, h, bind, pure]
-  split <;> (try rfl)
-  split <;> rfl
 
 /-- bet Wager -/
 theorem c06_wager_bad_ticket (s : State) (c : Nat) (tk : Tk) (u : Nat) (a : Int) (pl : WagerPayload)
